@@ -100,15 +100,15 @@ def base_meta(p):
         meta["experiment"]["event count"] = 99
         meta["imaging"]["roi size x"] = 9
         meta["imaging"]["roi size y"] = 11
-    if p["ds"] in ("fl", "trace"):
-        nfl = 2 if p["ds"] == "fl" else 0
+    if p["ds"] in ("fl", "trace", "fl3"):
+        nfl = {"fl": 2, "fl3": 1}.get(p["ds"], 0)
         meta["fluorescence"] = {
             "bit depth": 16, "channel count": nfl, "channels installed": 3,
             "laser count": 2, "lasers installed": 3, "sample rate": 1e6,
             "samples per event": SAMPLES, "signal max": 1., "signal min": -1.,
             "trace median": 0, "laser 1 lambda": 488., "laser 1 power": 5.,
             "laser 2 lambda": 561., "laser 2 power": 7.}
-        for i in range(1, nfl + 1):
+        for i in ((3,) if p["ds"] == "fl3" else range(1, nfl + 1)):
             meta["fluorescence"]["channel %d name" % i] = "FL%d" % i
         if p.get("stale"):
             meta["fluorescence"]["samples per event"] = 77
@@ -169,7 +169,7 @@ def build(eng, p):
             hw.store_feature("mask", np.arange(N * H * WID).reshape(
                 N, H, WID) % 2 == 0)
             g.len["mask"], g.shape["mask"] = N, (H, WID)
-        if kind in ("fl", "trace"):
+        if kind in ("fl", "trace", "fl3"):
             hw.store_feature("trace", {"fl1_raw": SArr(
                 [Tok("tr", i, (SAMPLES,)) for i in range(N)], np.int16,
                 (SAMPLES,))})
@@ -180,14 +180,15 @@ def build(eng, p):
             g.spe = SAMPLES
             g.lasercount = 2
             g.laser = {1: (True, 5.), 2: (True, 7.)}
-        if kind == "fl":
-            for i in (1, 2):
+        if kind in ("fl", "fl3"):
+            chans = (1, 2) if kind == "fl" else (3,)
+            for i in chans:
                 fv = [eng.real("fl%d_%d" % (i, j)) for j in range(N)]
                 hw.store_feature("fl%d_max" % i, SArr(fv, float))
                 g.len["fl%d_max" % i] = N
-            g.nfl = 2
+            g.nfl = len(chans)
             g.flfeat = True
-        if kind in ("fl", "trace"):
+        if kind in ("fl", "trace", "fl3"):
             g.chcount = g.nfl
         hw.store_log("log", ["a line", "another line"])
         hw.rectify_metadata()
@@ -642,13 +643,15 @@ SINGLE = {
            ("lasercount",), ("laserpower", 1), ("spe",), ("count",)],
     "trace": [("chcount",), ("lasercount",), ("spe",),
               ("len", "trace/fl1_raw")],
+    "fl3": [("chcount",), ("lasercount",), ("spe",),
+            ("missing", "fluorescence", "bit depth")],
 }
 
 
 def cases(tier, seed):
     from dclab.rtdc_dataset import check as ckmod
     out = []
-    for ds in ("scalar", "image", "mask", "maskonly", "fl", "trace"):
+    for ds in ("scalar", "image", "mask", "maskonly", "fl", "trace", "fl3"):
         out.append(("closure %s" % ds, dict(ds=ds, corrupt=[], copy=True)))
         out.append(("closure %s stale metadata" % ds,
                     dict(ds=ds, corrupt=[], copy=True, stale=True)))
@@ -706,7 +709,7 @@ def _concrete_ghost(p, vals):
         g.len["image"], g.shape["image"] = N, (H, WID)
     if kind in ("mask", "maskonly"):
         g.len["mask"], g.shape["mask"] = N, (H, WID)
-    if kind in ("fl", "trace"):
+    if kind in ("fl", "trace", "fl3"):
         g.len["trace/fl1_raw"] = N
         g.samples["fl1_raw"] = SAMPLES
         g.trace = g.flsection = True
@@ -715,7 +718,10 @@ def _concrete_ghost(p, vals):
     if kind == "fl":
         g.len["fl1_max"] = g.len["fl2_max"] = N
         g.nfl, g.flfeat = 2, True
-    if kind in ("fl", "trace"):
+    if kind == "fl3":
+        g.len["fl3_max"] = N
+        g.nfl, g.flfeat = 1, True
+    if kind in ("fl", "trace", "fl3"):
         g.chcount = g.nfl
     return g
 
@@ -740,11 +746,11 @@ def _real_file(path, p, vals):
         if p["ds"] in ("mask", "maskonly"):
             hw.store_feature("mask", np.arange(N * H * WID).reshape(
                 N, H, WID) % 2 == 0)
-        if p["ds"] in ("fl", "trace"):
+        if p["ds"] in ("fl", "trace", "fl3"):
             hw.store_feature("trace", {"fl1_raw": np.arange(
                 N * SAMPLES).reshape(N, SAMPLES).astype(np.int16)})
-        if p["ds"] == "fl":
-            for i in (1, 2):
+        if p["ds"] in ("fl", "fl3"):
+            for i in ((1, 2) if p["ds"] == "fl" else (3,)):
                 hw.store_feature("fl%d_max" % i, np.array(
                     [fv("fl%d_%d" % (i, j), 5. + j) for j in range(N)]))
         hw.store_log("log", ["a line", "another line"])
